@@ -16,6 +16,9 @@ mod c11;
 mod c15;
 mod c18;
 mod c17;
+mod extract;
+mod c01;
+mod c02;
 mod tables;
 
 fn main() {
@@ -79,6 +82,8 @@ fn main() {
                 "C10" => c10::run(&params),
                 "C12" => c12::run(&params),
                 "C17" => c17::run(&params),
+                "C01" => c01::run(&params),
+                "C02" => c02::run(&params),
                 _ => { eprintln!("unknown property {}", id); std::process::exit(2); }
             };
             // the witnesses of this property run as part of every check (regression corpus)
